@@ -23,6 +23,7 @@
                                  modifier is the one the model's own parse of the query finds), 1 = list table with
                                  normalize_column_names, 2 = list table in direct mode, 3 = pandas / sqlite (as 1, no length check)
                                  -> L[opt header; L records; vres (opt L[initialize; index] of the probe variable); opt modifier]
+                                 or L[1; parse error] when the query text is rejected by separate_actions
    res X = L[0; X] | L[1; L[tag; stmt?]] ; vres X = L[0; X] | L[1; tag]. *)
 From RBQL Require Import Base Sx Parser ParserVars.
 Local Open Scope N_scope.
@@ -205,7 +206,7 @@ Definition ep_c09 (x : sx) : sx :=
       | Some kind, Some flag, Some query, Some probe, Some all_records, Some names =>
           let p := parse_query LPy query in
           match p_actions p with
-          | Err _ => ERR
+          | Err e => L [A 1; perr_sx e]          (* the query does not parse: the implementation must fail too *)
           | Ok a =>
               let modifier := a_with a in
               let '(hdr, records, src, first_len) :=
